@@ -2,6 +2,7 @@
 # Applies one seeded change to /repo, runs the given checks (quick), restores /repo.
 # Usage: run_seeded.sh <patch-dir> <ID>...   (patch-dir contains patch.diff)
 d="$1"; shift
+case "$d" in /*) ;; *) d="$PWD/$d" ;; esac
 cd /repo || exit 2
 if [ -n "$(git status --porcelain --untracked-files=no)" ]; then echo "refusing: /repo has uncommitted changes"; exit 2; fi
 if ! git apply --3way "$d/patch.diff" 2>/tmp/apply.err && ! git apply "$d/patch.diff" 2>>/tmp/apply.err; then echo "$(basename $d): PATCH DOES NOT APPLY"; cat /tmp/apply.err | head -5; git reset -q --hard HEAD; exit 3; fi
